@@ -688,3 +688,20 @@ Definition is_query (o : op) : bool :=
   | NewIterSections _ | NewIterSymbols _ | NewIterTags _ | Next _ => false
   | _ => true
   end.
+
+(* ------------------------------------------------------------------ two file objects alive in one process *)
+(* the library keeps no state outside its objects, so two opened files are two independent machines; a history
+   over both is a list of (which object, operation) *)
+Section Product.
+  Variables (P1 P2 : parsers) (fuel1 fuel2 : nat) (F1 F2 : file).
+  Definition prod_step (s : state * state) (wo : bool * op) : (state * state) * answer :=
+    if fst wo then let '(s', a) := step P2 fuel2 (snd s) (snd wo) in ((fst s, s'), a)
+    else let '(s', a) := step P1 fuel1 (fst s) (snd wo) in ((s', snd s), a).
+  Fixpoint prod_run (s : state * state) (h : list (bool * op)) : list answer :=
+    match h with [] => [] | wo :: r => snd (prod_step s wo) :: prod_run (fst (prod_step s wo)) r end.
+  Definition spec_prod_step (a : list aframe * list aframe) (wo : bool * op) : (list aframe * list aframe) * answer :=
+    if fst wo then let '(a', x) := spec_step F2 (snd a) (snd wo) in ((fst a, a'), x)
+    else let '(a', x) := spec_step F1 (fst a) (snd wo) in ((a', snd a), x).
+  Fixpoint spec_prod_run (a : list aframe * list aframe) (h : list (bool * op)) : list answer :=
+    match h with [] => [] | wo :: r => snd (spec_prod_step a wo) :: spec_prod_run (fst (spec_prod_step a wo)) r end.
+End Product.
